@@ -23,6 +23,8 @@ class Server:
         env = dict(os.environ)
         env["PYTHONHASHSEED"] = str(hashseed)
         env["PYTHONDONTWRITEBYTECODE"] = "1"
+        if os.environ.get("Y0SIM_SRC"):
+            env["PYTHONPATH"] = os.environ["Y0SIM_SRC"]
         self.p = subprocess.Popen(
             [M.PY, M.WORKER, json.dumps({"mode": "server", "hashseed": hashseed, "out": os.devnull, "hard_timeout": 900})],
             env=env, stdin=subprocess.PIPE, stdout=subprocess.PIPE, stderr=subprocess.DEVNULL, text=True,
